@@ -1,4 +1,136 @@
+import LdarModel.Model.FollowUp
 import LdarModel.Driver.Proto
-/- driver stub: replaced by the component's real driver -/
-open LdarModel.Proto
-def main : IO Unit := runDriver (fun (_ : Unit) (_ : List String) => ((), "bad-op")) ()
+/-
+Driver for the follow-up work practice (several screening methods bound to one follow-up method).
+  new <nMethods> <nSites> <cap>                                   -> ok      (cap = crews × daily capacity)
+  method <i> <stationary> <rd> <delay> <prop> <thrFirst> <thr> <inst|-> <filter> <sw> <lw> <sthr> <lthr> -> ok
+  screen <i> <site> <rate> <date>                                  -> ok
+  update <i> <date>                                                -> flags=<n> <state>
+  fuday <date> [[site,outcome],...]   (outcome 0 complete 1 in progress 2 unattended; the list must be
+                                       the model's own plan of the day, in order)    -> ok <state>
+  tag <site> <date>                                                -> ok <state>
+  evs <i>                                                          -> ghost flag events of method i
+  state = M<i> pool=[site:rate,..] inPool=<bits> first=<d|-> count=<n> | ... | queue=[cls:site:rate,..]
+          inQueue=<bits> tag=[d,..] [err]         (pool in list order, queue in pop order)
+Rationals are written p/q in lowest terms.
+-/
+open LdarModel LdarModel.FollowUp LdarModel.Proto
+
+structure DState where
+  ps : List Params := []
+  nSites : Nat := 0
+  cap : Nat := 0
+  sy : Sys := {}
+
+def rat? (s : String) : Option Rat :=
+  match s.splitOn "/" with
+  | [a, b] => do
+    let n ← a.toInt?
+    let d ← b.toNat?
+    if d = 0 then none else some (mkRat n d)
+  | [a] => (a.toInt?).map (fun n => (n : Rat))
+  | _ => none
+
+def showRat (r : Rat) : String := s!"{r.num}/{r.den}"
+
+def filter? (s : String) : Option Filter :=
+  if s = "recent" then some .recent else if s = "max" then some .max
+  else if s = "average" then some .average else none
+
+def bits (n : Nat) (f : Nat → Bool) : String :=
+  String.join ((List.range n).map (fun i => showBool (f i)))
+
+def showM (n : Nat) (i : Nat) (m : MState) : String :=
+  let pool := ",".intercalate (m.pool.map (fun pl => s!"{pl.site}:{showRat pl.rate}"))
+  s!"M{i} pool=[{pool}] inPool={bits n m.inPool} first={showOptInt m.firstCand} count={m.count}"
+
+def showShared (n : Nat) (sh : Shared) : String :=
+  let q := ",".intercalate (sh.queue.map (fun e => s!"{e.cls}:{e.plan.site}:{showRat e.plan.rate}"))
+  let tg := ",".intercalate ((List.range n).map (fun i => toString (sh.latestTag i)))
+  s!"queue=[{q}] inQueue={bits n sh.inQueue} tag=[{tg}]" ++ (if sh.err then " err" else "")
+
+def dump (s : DState) : String :=
+  let ms := (List.zip (List.range s.sy.ms.length) s.sy.ms).map (fun (i, m) => showM s.nSites i m)
+  " | ".intercalate (ms ++ [showShared s.nSites s.sy.sh])
+
+def showEv (e : FlagEv) : String :=
+  let rt := match e.route with | .pool => "pool" | .instant => "instant"
+  s!"{e.site}:{showRat e.rate}:{rt}:{e.recDate}:{e.day}:{e.first}"
+
+def parseOut (s : String) : Option (Nat × Outcome) := do
+  match ← natList? s with
+  | [site, o] =>
+    if o = 0 then some (site, .complete) else if o = 1 then some (site, .inProgress)
+    else if o = 2 then some (site, .unattended) else none
+  | _ => none
+
+def outFn (l : List (Nat × Outcome)) : Nat → Outcome :=
+  fun s => match l.find? (fun x => x.1 = s) with
+    | some x => x.2
+    | none => .unattended
+
+def step (s : DState) (toks : List String) : DState × String :=
+  match toks with
+  | ["new", k, n, cap] =>
+    match nat? k, nat? n, nat? cap with
+    | some k, some n, some cap =>
+      let ps := (List.range k).map (fun _ => ({} : Params))
+      ({ ps := ps, nSites := n, cap := cap, sy := initSys ps }, "ok")
+    | _, _, _ => (s, "bad-op")
+  | ["method", i, st, rd, dl, pr, tf, thr, inst, flt, sw, lw, sthr, lthr] =>
+    match nat? i, bool? st, int? rd, int? dl, rat? pr, bool? tf, rat? thr, filter? flt, nat? sw, nat? lw,
+          rat? sthr, rat? lthr with
+    | some i, some st, some rd, some dl, some pr, some tf, some thr, some flt, some sw, some lw,
+      some sthr, some lthr =>
+      let inst? : Option (Option Rat) := if inst = "-" then some none else (rat? inst).map some
+      match inst? with
+      | some instv =>
+        if i < s.ps.length then
+          let p : Params := { stationary := st, rd := rd, delay := dl, prop := pr, thrFirst := tf, thr := thr,
+                              inst := instv, filter := flt, sw := sw, lw := lw, sthr := sthr, lthr := lthr }
+          ({ s with ps := s.ps.set i p }, "ok")
+        else (s, "bad-op")
+      | none => (s, "bad-op")
+    | _, _, _, _, _, _, _, _, _, _, _, _ => (s, "bad-op")
+  | ["screen", i, site, rate, date] =>
+    match nat? i, nat? site, rat? rate, int? date with
+    | some i, some site, some rate, some date =>
+      if i < s.sy.ms.length then
+        ({ s with sy := stepSys s.ps s.cap s.sy (.screen i site rate date) }, "ok")
+      else (s, "bad-op")
+    | _, _, _, _ => (s, "bad-op")
+  | ["update", i, date] =>
+    match nat? i, int? date with
+    | some i, some date =>
+      match s.sy.ms[i]? with
+      | some _ =>
+        let s' := { s with sy := stepSys s.ps s.cap s.sy (.update i date) }
+        let nf := match s'.sy.ms[i]? with | some m => m.nflags | none => 0
+        (s', s!"flags={nf} " ++ dump s')
+      | none => (s, "bad-op")
+    | _, _ => (s, "bad-op")
+  | ["fuday", date, outs] =>
+    match int? date, listOf? parseOut outs with
+    | some date, some outs =>
+      let plan := (planned s.cap s.sy.sh).map (·.site)
+      if plan = outs.map (·.1) then
+        let s' := { s with sy := stepSys s.ps s.cap s.sy (.fuDay date (outFn outs)) }
+        (s', "ok " ++ dump s')
+      else (s, "mismatch planned=" ++ showList toString plan)
+    | _, _ => (s, "bad-op")
+  | ["tag", site, date] =>
+    match nat? site, int? date with
+    | some site, some date =>
+      let s' := { s with sy := stepSys s.ps s.cap s.sy (.tag site date) }
+      (s', "ok " ++ dump s')
+    | _, _ => (s, "bad-op")
+  | ["evs", i] =>
+    match nat? i with
+    | some i =>
+      match s.sy.ms[i]? with
+      | some m => (s, "[" ++ ",".intercalate (m.evs.map showEv) ++ "]")
+      | none => (s, "bad-op")
+    | none => (s, "bad-op")
+  | _ => (s, "bad-op")
+
+def main : IO Unit := runDriver step {}
